@@ -275,11 +275,11 @@ mod vharness {
     #[kani::proof]
     #[kani::unwind(9)]
     fn quick_sort_2_len3_at1_code8() { quick_sort_2_at(1, 3, 8); }
-    //@harness props=C17,C01 quickfor=C17 strength=bounded bound="ONE execution: window of 4 positions at offset 2 of a 7-element index vector, comparison outcomes (less, less, less) (the instances of this family enumerate every outcome vector for this window)" clause="quick sort step 2 (partition): afterwards the window holds the elements that compared less than the pivot, in their original relative order, then the pivot, then the others in their original relative order (stability); positions outside the window are untouched; exactly the comparison results of this window are consumed; the two sides are scheduled for sorting exactly when they have more than one element" timeout=300 replay=sort_stable
+    //@harness props=C17,C01 quickfor=C17 strength=bounded tier=thorough bound="ONE execution: window of 4 positions at offset 2 of a 7-element index vector, comparison outcomes (less, less, less) (the instances of this family enumerate every outcome vector for this window)" clause="quick sort step 2 (partition): afterwards the window holds the elements that compared less than the pivot, in their original relative order, then the pivot, then the others in their original relative order (stability); positions outside the window are untouched; exactly the comparison results of this window are consumed; the two sides are scheduled for sorting exactly when they have more than one element" timeout=300 replay=sort_stable
     #[kani::proof]
     #[kani::unwind(9)]
     fn quick_sort_2_len4_at2_code0() { quick_sort_2_at(2, 4, 0); }
-    //@harness props=C17,C01 quickfor=C17 strength=bounded bound="ONE execution: window of 4 positions at offset 2 of a 7-element index vector, comparison outcomes (equal, less, less) (the instances of this family enumerate every outcome vector for this window)" clause="quick sort step 2 (partition): afterwards the window holds the elements that compared less than the pivot, in their original relative order, then the pivot, then the others in their original relative order (stability); positions outside the window are untouched; exactly the comparison results of this window are consumed; the two sides are scheduled for sorting exactly when they have more than one element" timeout=300 replay=sort_stable
+    //@harness props=C17,C01 quickfor=C17 strength=bounded tier=thorough bound="ONE execution: window of 4 positions at offset 2 of a 7-element index vector, comparison outcomes (equal, less, less) (the instances of this family enumerate every outcome vector for this window)" clause="quick sort step 2 (partition): afterwards the window holds the elements that compared less than the pivot, in their original relative order, then the pivot, then the others in their original relative order (stability); positions outside the window are untouched; exactly the comparison results of this window are consumed; the two sides are scheduled for sorting exactly when they have more than one element" timeout=300 replay=sort_stable
     #[kani::proof]
     #[kani::unwind(9)]
     fn quick_sort_2_len4_at2_code1() { quick_sort_2_at(2, 4, 1); }
@@ -291,7 +291,7 @@ mod vharness {
     #[kani::proof]
     #[kani::unwind(9)]
     fn quick_sort_2_len4_at2_code3() { quick_sort_2_at(2, 4, 3); }
-    //@harness props=C17,C01 quickfor=C17 strength=bounded bound="ONE execution: window of 4 positions at offset 2 of a 7-element index vector, comparison outcomes (equal, equal, less) (the instances of this family enumerate every outcome vector for this window)" clause="quick sort step 2 (partition): afterwards the window holds the elements that compared less than the pivot, in their original relative order, then the pivot, then the others in their original relative order (stability); positions outside the window are untouched; exactly the comparison results of this window are consumed; the two sides are scheduled for sorting exactly when they have more than one element" timeout=300 replay=sort_stable
+    //@harness props=C17,C01 quickfor=C17 strength=bounded tier=thorough bound="ONE execution: window of 4 positions at offset 2 of a 7-element index vector, comparison outcomes (equal, equal, less) (the instances of this family enumerate every outcome vector for this window)" clause="quick sort step 2 (partition): afterwards the window holds the elements that compared less than the pivot, in their original relative order, then the pivot, then the others in their original relative order (stability); positions outside the window are untouched; exactly the comparison results of this window are consumed; the two sides are scheduled for sorting exactly when they have more than one element" timeout=300 replay=sort_stable
     #[kani::proof]
     #[kani::unwind(9)]
     fn quick_sort_2_len4_at2_code4() { quick_sort_2_at(2, 4, 4); }
@@ -311,7 +311,7 @@ mod vharness {
     #[kani::proof]
     #[kani::unwind(9)]
     fn quick_sort_2_len4_at2_code8() { quick_sort_2_at(2, 4, 8); }
-    //@harness props=C17,C01 quickfor=C17 strength=bounded bound="ONE execution: window of 4 positions at offset 2 of a 7-element index vector, comparison outcomes (less, less, equal) (the instances of this family enumerate every outcome vector for this window)" clause="quick sort step 2 (partition): afterwards the window holds the elements that compared less than the pivot, in their original relative order, then the pivot, then the others in their original relative order (stability); positions outside the window are untouched; exactly the comparison results of this window are consumed; the two sides are scheduled for sorting exactly when they have more than one element" timeout=300 replay=sort_stable
+    //@harness props=C17,C01 quickfor=C17 strength=bounded tier=thorough bound="ONE execution: window of 4 positions at offset 2 of a 7-element index vector, comparison outcomes (less, less, equal) (the instances of this family enumerate every outcome vector for this window)" clause="quick sort step 2 (partition): afterwards the window holds the elements that compared less than the pivot, in their original relative order, then the pivot, then the others in their original relative order (stability); positions outside the window are untouched; exactly the comparison results of this window are consumed; the two sides are scheduled for sorting exactly when they have more than one element" timeout=300 replay=sort_stable
     #[kani::proof]
     #[kani::unwind(9)]
     fn quick_sort_2_len4_at2_code9() { quick_sort_2_at(2, 4, 9); }
@@ -343,7 +343,7 @@ mod vharness {
     #[kani::proof]
     #[kani::unwind(9)]
     fn quick_sort_2_len4_at2_code16() { quick_sort_2_at(2, 4, 16); }
-    //@harness props=C17,C01 quickfor=C17 strength=bounded bound="ONE execution: window of 4 positions at offset 2 of a 7-element index vector, comparison outcomes (greater, greater, equal) (the instances of this family enumerate every outcome vector for this window)" clause="quick sort step 2 (partition): afterwards the window holds the elements that compared less than the pivot, in their original relative order, then the pivot, then the others in their original relative order (stability); positions outside the window are untouched; exactly the comparison results of this window are consumed; the two sides are scheduled for sorting exactly when they have more than one element" timeout=300 replay=sort_stable
+    //@harness props=C17,C01 quickfor=C17 strength=bounded tier=thorough bound="ONE execution: window of 4 positions at offset 2 of a 7-element index vector, comparison outcomes (greater, greater, equal) (the instances of this family enumerate every outcome vector for this window)" clause="quick sort step 2 (partition): afterwards the window holds the elements that compared less than the pivot, in their original relative order, then the pivot, then the others in their original relative order (stability); positions outside the window are untouched; exactly the comparison results of this window are consumed; the two sides are scheduled for sorting exactly when they have more than one element" timeout=300 replay=sort_stable
     #[kani::proof]
     #[kani::unwind(9)]
     fn quick_sort_2_len4_at2_code17() { quick_sort_2_at(2, 4, 17); }
@@ -363,7 +363,7 @@ mod vharness {
     #[kani::proof]
     #[kani::unwind(9)]
     fn quick_sort_2_len4_at2_code21() { quick_sort_2_at(2, 4, 21); }
-    //@harness props=C17,C01 quickfor=C17 strength=bounded bound="ONE execution: window of 4 positions at offset 2 of a 7-element index vector, comparison outcomes (equal, equal, greater) (the instances of this family enumerate every outcome vector for this window)" clause="quick sort step 2 (partition): afterwards the window holds the elements that compared less than the pivot, in their original relative order, then the pivot, then the others in their original relative order (stability); positions outside the window are untouched; exactly the comparison results of this window are consumed; the two sides are scheduled for sorting exactly when they have more than one element" timeout=300 replay=sort_stable
+    //@harness props=C17,C01 quickfor=C17 strength=bounded tier=thorough bound="ONE execution: window of 4 positions at offset 2 of a 7-element index vector, comparison outcomes (equal, equal, greater) (the instances of this family enumerate every outcome vector for this window)" clause="quick sort step 2 (partition): afterwards the window holds the elements that compared less than the pivot, in their original relative order, then the pivot, then the others in their original relative order (stability); positions outside the window are untouched; exactly the comparison results of this window are consumed; the two sides are scheduled for sorting exactly when they have more than one element" timeout=300 replay=sort_stable
     #[kani::proof]
     #[kani::unwind(9)]
     fn quick_sort_2_len4_at2_code22() { quick_sort_2_at(2, 4, 22); }
@@ -379,7 +379,7 @@ mod vharness {
     #[kani::proof]
     #[kani::unwind(9)]
     fn quick_sort_2_len4_at2_code25() { quick_sort_2_at(2, 4, 25); }
-    //@harness props=C17,C01 quickfor=C17 strength=bounded bound="ONE execution: window of 4 positions at offset 2 of a 7-element index vector, comparison outcomes (greater, greater, greater) (the instances of this family enumerate every outcome vector for this window)" clause="quick sort step 2 (partition): afterwards the window holds the elements that compared less than the pivot, in their original relative order, then the pivot, then the others in their original relative order (stability); positions outside the window are untouched; exactly the comparison results of this window are consumed; the two sides are scheduled for sorting exactly when they have more than one element" timeout=300 replay=sort_stable
+    //@harness props=C17,C01 quickfor=C17 strength=bounded tier=thorough bound="ONE execution: window of 4 positions at offset 2 of a 7-element index vector, comparison outcomes (greater, greater, greater) (the instances of this family enumerate every outcome vector for this window)" clause="quick sort step 2 (partition): afterwards the window holds the elements that compared less than the pivot, in their original relative order, then the pivot, then the others in their original relative order (stability); positions outside the window are untouched; exactly the comparison results of this window are consumed; the two sides are scheduled for sorting exactly when they have more than one element" timeout=300 replay=sort_stable
     #[kani::proof]
     #[kani::unwind(9)]
     fn quick_sort_2_len4_at2_code26() { quick_sort_2_at(2, 4, 26); }
@@ -475,67 +475,67 @@ mod vharness {
     #[kani::proof]
     #[kani::unwind(9)]
     fn merge_pre_2_2_at_2_2() { merge_pre_at(2, 2, 2, 2); }
-    //@harness props=C17,C01 quickfor=C17 strength=bounded bound="ONE execution: runs of 1 and 3 elements, progress (0, 0) (the instances of this family enumerate every progress pair for these run lengths)" clause="merge step before a comparison: when one run is exhausted the rest of the other is copied in order to the positions that remain and the merge ends; otherwise the keys of the two run heads are requested for comparison (left head first operand) and the step after the comparison is scheduled" timeout=300 replay=sort_stable
+    //@harness props=C17,C01 quickfor=C17 strength=bounded tier=thorough bound="ONE execution: runs of 1 and 3 elements, progress (0, 0) (the instances of this family enumerate every progress pair for these run lengths)" clause="merge step before a comparison: when one run is exhausted the rest of the other is copied in order to the positions that remain and the merge ends; otherwise the keys of the two run heads are requested for comparison (left head first operand) and the step after the comparison is scheduled" timeout=300 replay=sort_stable
     #[kani::proof]
     #[kani::unwind(9)]
     fn merge_pre_1_3_at_0_0() { merge_pre_at(1, 3, 0, 0); }
-    //@harness props=C17,C01 quickfor=C17 strength=bounded bound="ONE execution: runs of 1 and 3 elements, progress (0, 1) (the instances of this family enumerate every progress pair for these run lengths)" clause="merge step before a comparison: when one run is exhausted the rest of the other is copied in order to the positions that remain and the merge ends; otherwise the keys of the two run heads are requested for comparison (left head first operand) and the step after the comparison is scheduled" timeout=300 replay=sort_stable
+    //@harness props=C17,C01 quickfor=C17 strength=bounded tier=thorough bound="ONE execution: runs of 1 and 3 elements, progress (0, 1) (the instances of this family enumerate every progress pair for these run lengths)" clause="merge step before a comparison: when one run is exhausted the rest of the other is copied in order to the positions that remain and the merge ends; otherwise the keys of the two run heads are requested for comparison (left head first operand) and the step after the comparison is scheduled" timeout=300 replay=sort_stable
     #[kani::proof]
     #[kani::unwind(9)]
     fn merge_pre_1_3_at_0_1() { merge_pre_at(1, 3, 0, 1); }
-    //@harness props=C17,C01 quickfor=C17 strength=bounded bound="ONE execution: runs of 1 and 3 elements, progress (0, 2) (the instances of this family enumerate every progress pair for these run lengths)" clause="merge step before a comparison: when one run is exhausted the rest of the other is copied in order to the positions that remain and the merge ends; otherwise the keys of the two run heads are requested for comparison (left head first operand) and the step after the comparison is scheduled" timeout=300 replay=sort_stable
+    //@harness props=C17,C01 quickfor=C17 strength=bounded tier=thorough bound="ONE execution: runs of 1 and 3 elements, progress (0, 2) (the instances of this family enumerate every progress pair for these run lengths)" clause="merge step before a comparison: when one run is exhausted the rest of the other is copied in order to the positions that remain and the merge ends; otherwise the keys of the two run heads are requested for comparison (left head first operand) and the step after the comparison is scheduled" timeout=300 replay=sort_stable
     #[kani::proof]
     #[kani::unwind(9)]
     fn merge_pre_1_3_at_0_2() { merge_pre_at(1, 3, 0, 2); }
-    //@harness props=C17,C01 quickfor=C17 strength=bounded bound="ONE execution: runs of 1 and 3 elements, progress (0, 3) (the instances of this family enumerate every progress pair for these run lengths)" clause="merge step before a comparison: when one run is exhausted the rest of the other is copied in order to the positions that remain and the merge ends; otherwise the keys of the two run heads are requested for comparison (left head first operand) and the step after the comparison is scheduled" timeout=300 replay=sort_stable
+    //@harness props=C17,C01 quickfor=C17 strength=bounded tier=thorough bound="ONE execution: runs of 1 and 3 elements, progress (0, 3) (the instances of this family enumerate every progress pair for these run lengths)" clause="merge step before a comparison: when one run is exhausted the rest of the other is copied in order to the positions that remain and the merge ends; otherwise the keys of the two run heads are requested for comparison (left head first operand) and the step after the comparison is scheduled" timeout=300 replay=sort_stable
     #[kani::proof]
     #[kani::unwind(9)]
     fn merge_pre_1_3_at_0_3() { merge_pre_at(1, 3, 0, 3); }
-    //@harness props=C17,C01 quickfor=C17 strength=bounded bound="ONE execution: runs of 1 and 3 elements, progress (1, 0) (the instances of this family enumerate every progress pair for these run lengths)" clause="merge step before a comparison: when one run is exhausted the rest of the other is copied in order to the positions that remain and the merge ends; otherwise the keys of the two run heads are requested for comparison (left head first operand) and the step after the comparison is scheduled" timeout=300 replay=sort_stable
+    //@harness props=C17,C01 quickfor=C17 strength=bounded tier=thorough bound="ONE execution: runs of 1 and 3 elements, progress (1, 0) (the instances of this family enumerate every progress pair for these run lengths)" clause="merge step before a comparison: when one run is exhausted the rest of the other is copied in order to the positions that remain and the merge ends; otherwise the keys of the two run heads are requested for comparison (left head first operand) and the step after the comparison is scheduled" timeout=300 replay=sort_stable
     #[kani::proof]
     #[kani::unwind(9)]
     fn merge_pre_1_3_at_1_0() { merge_pre_at(1, 3, 1, 0); }
-    //@harness props=C17,C01 quickfor=C17 strength=bounded bound="ONE execution: runs of 1 and 3 elements, progress (1, 1) (the instances of this family enumerate every progress pair for these run lengths)" clause="merge step before a comparison: when one run is exhausted the rest of the other is copied in order to the positions that remain and the merge ends; otherwise the keys of the two run heads are requested for comparison (left head first operand) and the step after the comparison is scheduled" timeout=300 replay=sort_stable
+    //@harness props=C17,C01 quickfor=C17 strength=bounded tier=thorough bound="ONE execution: runs of 1 and 3 elements, progress (1, 1) (the instances of this family enumerate every progress pair for these run lengths)" clause="merge step before a comparison: when one run is exhausted the rest of the other is copied in order to the positions that remain and the merge ends; otherwise the keys of the two run heads are requested for comparison (left head first operand) and the step after the comparison is scheduled" timeout=300 replay=sort_stable
     #[kani::proof]
     #[kani::unwind(9)]
     fn merge_pre_1_3_at_1_1() { merge_pre_at(1, 3, 1, 1); }
-    //@harness props=C17,C01 quickfor=C17 strength=bounded bound="ONE execution: runs of 1 and 3 elements, progress (1, 2) (the instances of this family enumerate every progress pair for these run lengths)" clause="merge step before a comparison: when one run is exhausted the rest of the other is copied in order to the positions that remain and the merge ends; otherwise the keys of the two run heads are requested for comparison (left head first operand) and the step after the comparison is scheduled" timeout=300 replay=sort_stable
+    //@harness props=C17,C01 quickfor=C17 strength=bounded tier=thorough bound="ONE execution: runs of 1 and 3 elements, progress (1, 2) (the instances of this family enumerate every progress pair for these run lengths)" clause="merge step before a comparison: when one run is exhausted the rest of the other is copied in order to the positions that remain and the merge ends; otherwise the keys of the two run heads are requested for comparison (left head first operand) and the step after the comparison is scheduled" timeout=300 replay=sort_stable
     #[kani::proof]
     #[kani::unwind(9)]
     fn merge_pre_1_3_at_1_2() { merge_pre_at(1, 3, 1, 2); }
-    //@harness props=C17,C01 quickfor=C17 strength=bounded bound="ONE execution: runs of 1 and 3 elements, progress (1, 3) (the instances of this family enumerate every progress pair for these run lengths)" clause="merge step before a comparison: when one run is exhausted the rest of the other is copied in order to the positions that remain and the merge ends; otherwise the keys of the two run heads are requested for comparison (left head first operand) and the step after the comparison is scheduled" timeout=300 replay=sort_stable
+    //@harness props=C17,C01 quickfor=C17 strength=bounded tier=thorough bound="ONE execution: runs of 1 and 3 elements, progress (1, 3) (the instances of this family enumerate every progress pair for these run lengths)" clause="merge step before a comparison: when one run is exhausted the rest of the other is copied in order to the positions that remain and the merge ends; otherwise the keys of the two run heads are requested for comparison (left head first operand) and the step after the comparison is scheduled" timeout=300 replay=sort_stable
     #[kani::proof]
     #[kani::unwind(9)]
     fn merge_pre_1_3_at_1_3() { merge_pre_at(1, 3, 1, 3); }
-    //@harness props=C17,C01 quickfor=C17 strength=bounded bound="ONE execution: runs of 3 and 1 elements, progress (0, 0) (the instances of this family enumerate every progress pair for these run lengths)" clause="merge step before a comparison: when one run is exhausted the rest of the other is copied in order to the positions that remain and the merge ends; otherwise the keys of the two run heads are requested for comparison (left head first operand) and the step after the comparison is scheduled" timeout=300 replay=sort_stable
+    //@harness props=C17,C01 quickfor=C17 strength=bounded tier=thorough bound="ONE execution: runs of 3 and 1 elements, progress (0, 0) (the instances of this family enumerate every progress pair for these run lengths)" clause="merge step before a comparison: when one run is exhausted the rest of the other is copied in order to the positions that remain and the merge ends; otherwise the keys of the two run heads are requested for comparison (left head first operand) and the step after the comparison is scheduled" timeout=300 replay=sort_stable
     #[kani::proof]
     #[kani::unwind(9)]
     fn merge_pre_3_1_at_0_0() { merge_pre_at(3, 1, 0, 0); }
-    //@harness props=C17,C01 quickfor=C17 strength=bounded bound="ONE execution: runs of 3 and 1 elements, progress (0, 1) (the instances of this family enumerate every progress pair for these run lengths)" clause="merge step before a comparison: when one run is exhausted the rest of the other is copied in order to the positions that remain and the merge ends; otherwise the keys of the two run heads are requested for comparison (left head first operand) and the step after the comparison is scheduled" timeout=300 replay=sort_stable
+    //@harness props=C17,C01 quickfor=C17 strength=bounded tier=thorough bound="ONE execution: runs of 3 and 1 elements, progress (0, 1) (the instances of this family enumerate every progress pair for these run lengths)" clause="merge step before a comparison: when one run is exhausted the rest of the other is copied in order to the positions that remain and the merge ends; otherwise the keys of the two run heads are requested for comparison (left head first operand) and the step after the comparison is scheduled" timeout=300 replay=sort_stable
     #[kani::proof]
     #[kani::unwind(9)]
     fn merge_pre_3_1_at_0_1() { merge_pre_at(3, 1, 0, 1); }
-    //@harness props=C17,C01 quickfor=C17 strength=bounded bound="ONE execution: runs of 3 and 1 elements, progress (1, 0) (the instances of this family enumerate every progress pair for these run lengths)" clause="merge step before a comparison: when one run is exhausted the rest of the other is copied in order to the positions that remain and the merge ends; otherwise the keys of the two run heads are requested for comparison (left head first operand) and the step after the comparison is scheduled" timeout=300 replay=sort_stable
+    //@harness props=C17,C01 quickfor=C17 strength=bounded tier=thorough bound="ONE execution: runs of 3 and 1 elements, progress (1, 0) (the instances of this family enumerate every progress pair for these run lengths)" clause="merge step before a comparison: when one run is exhausted the rest of the other is copied in order to the positions that remain and the merge ends; otherwise the keys of the two run heads are requested for comparison (left head first operand) and the step after the comparison is scheduled" timeout=300 replay=sort_stable
     #[kani::proof]
     #[kani::unwind(9)]
     fn merge_pre_3_1_at_1_0() { merge_pre_at(3, 1, 1, 0); }
-    //@harness props=C17,C01 quickfor=C17 strength=bounded bound="ONE execution: runs of 3 and 1 elements, progress (1, 1) (the instances of this family enumerate every progress pair for these run lengths)" clause="merge step before a comparison: when one run is exhausted the rest of the other is copied in order to the positions that remain and the merge ends; otherwise the keys of the two run heads are requested for comparison (left head first operand) and the step after the comparison is scheduled" timeout=300 replay=sort_stable
+    //@harness props=C17,C01 quickfor=C17 strength=bounded tier=thorough bound="ONE execution: runs of 3 and 1 elements, progress (1, 1) (the instances of this family enumerate every progress pair for these run lengths)" clause="merge step before a comparison: when one run is exhausted the rest of the other is copied in order to the positions that remain and the merge ends; otherwise the keys of the two run heads are requested for comparison (left head first operand) and the step after the comparison is scheduled" timeout=300 replay=sort_stable
     #[kani::proof]
     #[kani::unwind(9)]
     fn merge_pre_3_1_at_1_1() { merge_pre_at(3, 1, 1, 1); }
-    //@harness props=C17,C01 quickfor=C17 strength=bounded bound="ONE execution: runs of 3 and 1 elements, progress (2, 0) (the instances of this family enumerate every progress pair for these run lengths)" clause="merge step before a comparison: when one run is exhausted the rest of the other is copied in order to the positions that remain and the merge ends; otherwise the keys of the two run heads are requested for comparison (left head first operand) and the step after the comparison is scheduled" timeout=300 replay=sort_stable
+    //@harness props=C17,C01 quickfor=C17 strength=bounded tier=thorough bound="ONE execution: runs of 3 and 1 elements, progress (2, 0) (the instances of this family enumerate every progress pair for these run lengths)" clause="merge step before a comparison: when one run is exhausted the rest of the other is copied in order to the positions that remain and the merge ends; otherwise the keys of the two run heads are requested for comparison (left head first operand) and the step after the comparison is scheduled" timeout=300 replay=sort_stable
     #[kani::proof]
     #[kani::unwind(9)]
     fn merge_pre_3_1_at_2_0() { merge_pre_at(3, 1, 2, 0); }
-    //@harness props=C17,C01 quickfor=C17 strength=bounded bound="ONE execution: runs of 3 and 1 elements, progress (2, 1) (the instances of this family enumerate every progress pair for these run lengths)" clause="merge step before a comparison: when one run is exhausted the rest of the other is copied in order to the positions that remain and the merge ends; otherwise the keys of the two run heads are requested for comparison (left head first operand) and the step after the comparison is scheduled" timeout=300 replay=sort_stable
+    //@harness props=C17,C01 quickfor=C17 strength=bounded tier=thorough bound="ONE execution: runs of 3 and 1 elements, progress (2, 1) (the instances of this family enumerate every progress pair for these run lengths)" clause="merge step before a comparison: when one run is exhausted the rest of the other is copied in order to the positions that remain and the merge ends; otherwise the keys of the two run heads are requested for comparison (left head first operand) and the step after the comparison is scheduled" timeout=300 replay=sort_stable
     #[kani::proof]
     #[kani::unwind(9)]
     fn merge_pre_3_1_at_2_1() { merge_pre_at(3, 1, 2, 1); }
-    //@harness props=C17,C01 quickfor=C17 strength=bounded bound="ONE execution: runs of 3 and 1 elements, progress (3, 0) (the instances of this family enumerate every progress pair for these run lengths)" clause="merge step before a comparison: when one run is exhausted the rest of the other is copied in order to the positions that remain and the merge ends; otherwise the keys of the two run heads are requested for comparison (left head first operand) and the step after the comparison is scheduled" timeout=300 replay=sort_stable
+    //@harness props=C17,C01 quickfor=C17 strength=bounded tier=thorough bound="ONE execution: runs of 3 and 1 elements, progress (3, 0) (the instances of this family enumerate every progress pair for these run lengths)" clause="merge step before a comparison: when one run is exhausted the rest of the other is copied in order to the positions that remain and the merge ends; otherwise the keys of the two run heads are requested for comparison (left head first operand) and the step after the comparison is scheduled" timeout=300 replay=sort_stable
     #[kani::proof]
     #[kani::unwind(9)]
     fn merge_pre_3_1_at_3_0() { merge_pre_at(3, 1, 3, 0); }
-    //@harness props=C17,C01 quickfor=C17 strength=bounded bound="ONE execution: runs of 3 and 1 elements, progress (3, 1) (the instances of this family enumerate every progress pair for these run lengths)" clause="merge step before a comparison: when one run is exhausted the rest of the other is copied in order to the positions that remain and the merge ends; otherwise the keys of the two run heads are requested for comparison (left head first operand) and the step after the comparison is scheduled" timeout=300 replay=sort_stable
+    //@harness props=C17,C01 quickfor=C17 strength=bounded tier=thorough bound="ONE execution: runs of 3 and 1 elements, progress (3, 1) (the instances of this family enumerate every progress pair for these run lengths)" clause="merge step before a comparison: when one run is exhausted the rest of the other is copied in order to the positions that remain and the merge ends; otherwise the keys of the two run heads are requested for comparison (left head first operand) and the step after the comparison is scheduled" timeout=300 replay=sort_stable
     #[kani::proof]
     #[kani::unwind(9)]
     fn merge_pre_3_1_at_3_1() { merge_pre_at(3, 1, 3, 1); }
